@@ -102,8 +102,102 @@ fn alternation(ctx: &mut Ctx, n: usize, period: usize, cls: &[Class]) -> Vec<u8>
     v
 }
 
+/// periodic inputs whose planning cost must grow linearly: one planning call on 4n bytes against four calls on n
+/// bytes (equal exposure to scheduling noise). Linear work gives a ratio near 1, quadratic work near 4.
+/// The pinned tree shows up to 1.9 on pure letter runs (the C40/Text look-ahead `unbeatable_strike` scans to the end
+/// of a base-set run at every step: a quadratic term with a tiny constant, outside the step count the statement
+/// bounds). Only a quadratic-dominated ratio (>= 3.0 in three independent measurements) is reported.
+fn growth_shapes() -> Vec<(&'static str, Vec<u8>)> {
+    let mut v: Vec<(&'static str, Vec<u8>)> = vec![
+        ("digits", b"0123456789".to_vec()),
+        ("upper", b"ABCDEFGHIJKLMNOPQRSTUVWXYZ".to_vec()),
+        ("lower", b"abcdefghijklmnopqrstuvwxyz".to_vec()),
+        ("space_7digits", b" 1234567".to_vec()),
+        ("space_8digits", b" 12345678".to_vec()),
+        ("upper_7digits", b"AB1234567".to_vec()),
+        ("lower_9digits", b"xy123456789".to_vec()),
+        ("upper_lower", b"ABCDEFabcdef".to_vec()),
+        ("x12_records", b"ABC*123>XYZ\r".to_vec()),
+        ("edifact", b"+.-/:?()=@[]".to_vec()),
+        ("digit_pairs_punct", b"12.34.56.78.".to_vec()),
+        ("high_bytes", vec![0x80, 0xC3, 0xA9, 0xFF, 0xE2, 0x82, 0xAC]),
+        ("high_then_digits", vec![0xE9, b'1', b'2', b'3', b'4', b'5', b'6', b'7', b'8']),
+        ("shift2_chars", b"a!b\"c#d$".to_vec()),
+        ("mixed_all", b"Ab1 *\xe9z9Q.".to_vec()),
+        ("single_char", b"A".to_vec()),
+        ("two_spaces_text", b"  lorem ipsum dolor sit amet 1234567 ".to_vec()),
+    ];
+    for (_, p) in v.iter_mut() {
+        if p.is_empty() {
+            p.push(b'A');
+        }
+    }
+    v
+}
+
+pub fn time_growth(ctx: &mut Ctx) {
+    use std::time::Instant;
+    let n = 500usize;
+    let Some(list) = list_from_spec("all") else { return };
+    for (si, (name, pat)) in growth_shapes().into_iter().enumerate() {
+        if !ctx.mine(si) || ctx.violation_count > 0 {
+            continue;
+        }
+        ctx.eval();
+        let small: Vec<u8> = pat.iter().copied().cycle().take(n).collect();
+        let big: Vec<u8> = pat.iter().copied().cycle().take(4 * n).collect();
+        let case = Case::new("plantime").with("shape", name).bytes("pattern", &pat).with("n", n);
+        crate::ctx::trace_case(|| case.flat());
+        let measure = |reps: usize| -> Result<(f64, f64), String> {
+            let mut ts = f64::MAX;
+            let mut tb = f64::MAX;
+            for _ in 0..reps {
+                let t0 = Instant::now();
+                for _ in 0..4 {
+                    guard(|| datamatrix::data::encodation_plan(&small, &list, modes_from_mask(63)).is_some())?;
+                }
+                ts = ts.min(t0.elapsed().as_secs_f64());
+                let t1 = Instant::now();
+                guard(|| datamatrix::data::encodation_plan(&big, &list, modes_from_mask(63)).is_some())?;
+                tb = tb.min(t1.elapsed().as_secs_f64());
+            }
+            Ok((ts, tb))
+        };
+        let _ = datamatrix::verif::take_planner_stats();
+        // three independent confirmations (minimum over repetitions each); all must agree before anything is reported
+        let mut ratios = Vec::new();
+        for round in 0..3 {
+            match measure(if round == 0 { 3 } else { 7 }) {
+                Err(_) => {
+                    ctx.count("plan.panic(C11)");
+                    break;
+                }
+                Ok((ts, tb)) => {
+                    let r = tb / ts.max(1e-9);
+                    ratios.push(r);
+                    if r < 3.0 {
+                        break;
+                    }
+                }
+            }
+        }
+        let _ = datamatrix::verif::take_planner_stats();
+        if ratios.is_empty() {
+            continue;
+        }
+        let rmin = ratios.iter().cloned().fold(f64::MAX, f64::min);
+        ctx.max("max_time_ratio_plan(4n)_vs_4xplan(n)_x100", (rmin * 100.0) as u64);
+        ctx.max(&format!("time_ratio_x100.{}", name), (rmin * 100.0) as u64);
+        ctx.count("workload.time_growth_shapes");
+        if ratios.len() == 3 && rmin >= 3.0 {
+            ctx.violation("planning_time_superlinear", &case, format!("one planning call on {} bytes takes {:.1}x the time of four calls on {} bytes in three independent measurements (linear work gives about 1, quadratic about 4): {:?}", 4 * n, rmin, n, ratios.iter().map(|r| (r * 100.0).round() / 100.0).collect::<Vec<_>>()));
+        }
+    }
+}
+
 pub fn run(ctx: &mut Ctx) {
     let mut item = 0usize;
+    time_growth(ctx);
     // every length up to 300, then geometric, homogeneous and alternating content
     let mut lens: Vec<usize> = (0..=300).collect();
     let mut l = 330;
@@ -140,7 +234,7 @@ pub fn run(ctx: &mut Ctx) {
     }
     // tiny inputs (incl. the empty one) under every mode subset and a few lists
     for mask in 0..=63u8 {
-        for n in 0..=4usize {
+        for n in 0..=10usize {
             if ctx.mine(item) {
                 for list in ["default", "all", "Square10", "Square144"] {
                     let input: Vec<u8> = b"A1a*".iter().copied().cycle().take(n).collect();
@@ -189,5 +283,15 @@ pub fn run(ctx: &mut Ctx) {
 }
 
 pub fn replay(ctx: &mut Ctx, case: &Case) {
+    if case.kind == "plantime" {
+        // the shapes are fixed: re-measure all of them
+        let save = (ctx.shard, ctx.nshards);
+        ctx.shard = 0;
+        ctx.nshards = 1;
+        time_growth(ctx);
+        ctx.shard = save.0;
+        ctx.nshards = save.1;
+        return;
+    }
     eval(ctx, &EncCase::from_case(case), "replay");
 }
